@@ -295,6 +295,10 @@ def handle (t : Array String) : String :=
     let fl := fun (l : List Float) => toString l.length ++ " " ++ pr l
     " ".intercalate ([nl b.lb, nl b.ub, toString b.nq, nl b.q, fl b.a, fl b.eixs, fl b.rrxs, fl b.drxs,
       toString b.cxBg.length] ++ b.cxBg.map fl ++ [toString b.cxTg.length] ++ b.cxTg.map fl)
+  | "advcall" =>
+    -- advcall t_max hasMethod [method] -> t0 t1 method vectorized   (the start vector is `advinit`)
+    let c := Adv.call (Num.lit 0 : Float) (fb t[1]!) [] (if t[2]! == "1" then some t[3]! else none)
+    pr [c.t0, c.t1] ++ " " ++ c.method ++ " " ++ (if c.vectorized then "1" else "0")
   | "advinit" =>
     -- advinit fwhm ntargets (n kT)*
     let fwhm := fb t[1]!
